@@ -36,8 +36,10 @@ class Kernel:
 
 
 class KGen:
-    def __init__(self, rng, real_only=False, allow_unsafe=True, passive_temps=True, cond_on_reals=True, shift=0, init_locals=False):
+    def __init__(self, rng, real_only=False, allow_unsafe=True, passive_temps=True, cond_on_reals=True, shift=0, init_locals=False, rank2=True):
         self.r = rng
+        self.rank2 = rank2          # False: no rank-2 active array (keeps the set of active locations small)
+        self.guard = []             # lines placed before the first statement of the next kernel (passive early exits)
         # compiled tier: a TL kernel that reads a local before assigning it is not a defined Fortran program (gfortran
         # hands it stack garbage, the adjoint zeroes its locals): local active temporaries are zeroed at the top
         self.init_locals = init_locals
@@ -250,13 +252,15 @@ class KGen:
         r = self.r
         self.features = set()
         self.arrays1 = ["a", "b", "c"][: r.randint(2, 3)]
-        self.arrays2 = ["m"] if r.random() < 0.3 else []
+        self.arrays2 = ["m"] if (r.random() < 0.3 and self.rank2) else []
         self.scalars = ["s", "t"][: r.randint(1, 2)]
         self.locals = ["w1", "w2"][: r.choice([0, 0, 1, 2])]
         self.ints = ["n1", "n2", "k1"]
         # passive temporaries: assigned once, at the top of the routine, from arguments only
         self.ptemps = ["pt"] if (self.passive_temps and r.random() < 0.25) else []
-        body = []
+        body = list(self.guard)
+        if self.guard:
+            self.features.add("early-return")
         if self.ptemps:
             self.features.add("passive-temp")
             body.append("  pt = " + r.choice(["2.0 * p", "p + q", "p * q"]))
@@ -297,6 +301,74 @@ class KGen:
         return Kernel(src, self.arrays1 + self.arrays2 + self.scalars + self.locals, list(self.locals), pv,
                       list(self.arrays1), list(self.arrays2), list(self.scalars), self.real_only,
                       bool(self.ptemps), sorted(self.features))
+
+
+# ---------------------------------------------------------------------------
+# early-exit family: passive statements containing RETURN in front of the first active statement (the
+# adjoint must leave exactly when the tangent-linear code leaves).  Systematic: guard shape x condition x
+# the passive values that decide every condition both ways; the statements behind the guard come from KGen.
+GUARD_CONDS = [          # (condition text, passive values making it true, values making it false)
+    ("lg", {"lg": 1}, {"lg": 0}),
+    (".not. lg", {"lg": 0}, {"lg": 1}),
+    ("n1 > 3", {"n1": 5}, {"n1": 2}),
+    ("n2 <= n1", {"n1": 4, "n2": 3}, {"n1": 1, "n2": 6}),
+]
+GUARD_SHAPES = ["stmt", "block", "nested", "else-chain", "two", "else-passive"]
+
+
+def guard_variants(shape, ci):
+    """[(lines, passive-value overrides, returns?)] for one guard shape; conditions ci and ci+1"""
+    c1, t1, f1 = GUARD_CONDS[ci % len(GUARD_CONDS)]
+    # second condition on other variables than the first
+    c2, t2, f2 = GUARD_CONDS[(ci + 2) % len(GUARD_CONDS)]
+    def both(x, y):
+        d = dict(x)
+        d.update(y)
+        return d
+    if shape == "stmt":
+        return [([f"  if ({c1}) return"], t1, True), ([f"  if ({c1}) return"], f1, False)]
+    if shape == "block":
+        g = [f"  if ({c1}) then", "    return", "  end if"]
+        return [(g, t1, True), (g, f1, False)]
+    if shape == "nested":
+        g = [f"  if ({c1}) then", f"    if ({c2}) return", "  end if"]
+        return [(g, both(t1, t2), True), (g, both(t1, f2), False), (g, both(f1, t2), False)]
+    if shape == "else-chain":
+        g = [f"  if ({c1}) then", "    return", "  else", f"    if ({c2}) then", "      return", "    end if", "  end if"]
+        return [(g, both(t1, f2), True), (g, both(f1, t2), True), (g, both(f1, f2), False)]
+    if shape == "two":
+        g = [f"  if ({c1}) return", f"  if ({c2}) return"]
+        return [(g, both(t1, f2), True), (g, both(f1, t2), True), (g, both(f1, f2), False)]
+    if shape == "else-passive":
+        g = [f"  if ({c1}) then", "    return", "  else", "    i = 0", "  end if"]
+        return [(g, t1, True), (g, f1, False)]
+    raise ValueError(shape)
+
+
+def guard_family(rng, n_bases, shapes_per_base):
+    """yields (base kernel, [(guarded kernel, returns?, passive-value overrides)]): the same random statements without and with a leading
+    early-exit guard, the guarded kernel once per decisive assignment of the passive values"""
+    gen = KGen(rng, allow_unsafe=False, rank2=False)
+    k = rng.randrange(len(GUARD_SHAPES) * len(GUARD_CONDS))
+    for _ in range(n_bases):
+        state = rng.getstate()
+        gen.guard = []
+        base = gen.kernel()
+        after = rng.getstate()
+        out = []
+        for _ in range(shapes_per_base):
+            shape, ci = GUARD_SHAPES[k % len(GUARD_SHAPES)], k // len(GUARD_SHAPES)
+            k += 1
+            for lines, over, returns in guard_variants(shape, ci):
+                rng.setstate(state)          # same statements, argument order and passive values as the base
+                gen.guard = lines
+                kern = gen.kernel()
+                kern.passive_vals.update(over)
+                kern.features = sorted(set(kern.features) | {"guard-" + shape, "returns" if returns else "falls-through"})
+                out.append((kern, returns, dict(over)))
+        gen.guard = []
+        rng.setstate(after)
+        yield base, out
 
 
 # ---------------------------------------------------------------------------
